@@ -234,6 +234,7 @@ static void run_history(int family /*0 fast,1 HC*/, int nops, const char* mode, 
  * Block layout: [64 KB table: fixed keys + FIXED values][128 KB filler][64 KB table: same keys at the same places + FRESH values], so that a history
  * mapped 192 KB too low still matches (same keys, same fixed values) but the bytes really referenced differ.  Every phase-2 block is decoded with the
  * real decoder against the previous block (its declared history). */
+static u64 n_xs_hist, n_xs_renorm;
 static void long_stream_renorm_scenario_x(int withResets);
 static void long_stream_renorm_scenario(void) { long_stream_renorm_scenario_x(0); }
 /* withResets: the first gigabyte of index is accumulated by many short sessions separated by LZ4_resetStream_fast (the index survives a fast reset while it is
@@ -243,6 +244,7 @@ static void long_stream_renorm_scenario_x(int withResets)
     enum { BIG = 4 << 20, BS = 256 << 10, TBL = 64 << 10, RECS = 2048 };
     LZ4_stream_t* fs = LZ4_createStream(); u8* big[2]; u8* blk[2]; u8* dst = xalloc((size_t)LZ4_compressBound(BIG)); u8* out = xalloc(BS);
     static u8 keys[RECS][8], fixedv[RECS][24]; unsigned long long fed = 0; int b, i, k, turn = 0; rec_t r;
+    rec_t xr; int xr_on = 0, xr_done = 0, xr_n = 0; u8* xr_tb = NULL; u8* xr_dict = NULL; u8* xr_keep[16];
     for (i = 0; i < RECS; i++) { for (k = 0; k < 8; k++) keys[i][k] = (u8)rnd(); for (k = 0; k < 24; k++) fixedv[i][k] = (u8)rnd(); }
     for (b = 0; b < 2; b++) { big[b] = xalloc(BIG); for (i = 0; i < BIG; i++) big[b][i] = (u8)("abcdefgh"[(i + b) & 7]); blk[b] = xalloc(BS); }
     while (fed + BIG < 0x80000000ULL - (3u << 20)) {
@@ -251,6 +253,14 @@ static void long_stream_renorm_scenario_x(int withResets)
         c = LZ4_compress_fast_continue(fs, (const char*)big[turn], (char*)dst, BIG, LZ4_compressBound(BIG), 1); n_calls++; if (c <= 0) break; fed += BIG; turn ^= 1; }
     for (b = 0; b < 28; b++) {
         u8* cur = blk[b & 1]; const u8* prev = blk[(b & 1) ^ 1]; int c, d;
+        /* three blocks before the index rescale: dump the real state (table, currentOffset, dictionary address and bytes); the blocks from here on are
+         * ALSO recorded as a stream life (op 16) that the model replays from that state, byte for byte, THROUGH LZ4_renormDictT */
+        { const LZ4_stream_t_internal* in = &fs->internal_donotuse;
+          if (!xr_on && !xr_done && (unsigned long long)in->currentOffset + 3ull * BS > 0x80000000ULL) {
+              xr_tb = xalloc(4 * LZ4_HASH_SIZE_U32); for (i = 0; i < LZ4_HASH_SIZE_U32; i++) { u32 v = in->hashTable[i]; xr_tb[4*i] = (u8)v; xr_tb[4*i+1] = (u8)(v >> 8); xr_tb[4*i+2] = (u8)(v >> 16); xr_tb[4*i+3] = (u8)(v >> 24); }
+              xr_dict = xalloc(in->dictSize + 1); memcpy(xr_dict, in->dictionary, in->dictSize);
+              rec_begin(&xr, 16); rec_int(&xr, 0); rec_bytes(&xr, xr_tb, 4 * LZ4_HASH_SIZE_U32); rec_int(&xr, (long long)in->currentOffset); rec_int(&xr, (long long)(size_t)in->dictionary); rec_bytes(&xr, xr_dict, in->dictSize); rec_int(&xr, 1);
+              xr_on = 1; } }
         for (i = 0; i < RECS; i++) { int q = (i + b) % RECS; memcpy(cur + 32 * i, keys[q], 8); memcpy(cur + 32 * i + 8, fixedv[q], 24); }   /* scrolled by one record per block: the previous block's copy is < 64 KB away */
         for (i = TBL; i < BS - TBL; i++) cur[i] = (u8)("ACGT"[rnd() & 3]);
         for (i = 0; i < RECS; i++) { memcpy(cur + (BS - TBL) + 32 * i, keys[(i + b) % RECS], 8); for (k = 0; k < 24; k++) cur[(BS - TBL) + 32 * i + 8 + k] = (u8)rnd(); }
@@ -258,6 +268,9 @@ static void long_stream_renorm_scenario_x(int withResets)
         c = LZ4_compress_fast_continue(fs, (const char*)cur, (char*)dst, BS, LZ4_compressBound(BS), 1); n_calls++;
         if (fed < 0x80000000ULL && fed + BS >= 0x80000000ULL) n_renorm++;
         fed += BS;
+        if (xr_on && xr_n < 8 && c > 0) { u8* cd = xalloc(BS); u8* co = xalloc((size_t)c); memcpy(cd, cur, BS); memcpy(co, dst, (size_t)c); xr_keep[2 * xr_n] = cd; xr_keep[2 * xr_n + 1] = co; xr_n++;
+            rec_int(&xr, 0); rec_int(&xr, (long long)(size_t)cur); rec_bytes(&xr, cd, BS); rec_int(&xr, 1); rec_int(&xr, LZ4_compressBound(BS)); rec_int(&xr, c); rec_bytes(&xr, co, (size_t)c);
+            if (xr_n == 8) { xr.ints[0] = 8; rec_write(&xr); n_xs_hist++; n_xs_renorm++; xr_on = 0; xr_done = 1; } }
         if (c <= 0) { c_fail(&r, "continue_failed_at_bound"); break; }
         d = b == 0 ? LZ4_decompress_safe_usingDict((const char*)dst, (char*)out, c, BS, (const char*)big[turn ^ 1], BIG)
                    : LZ4_decompress_safe_usingDict((const char*)dst, (char*)out, c, BS, (const char*)prev, BS);
@@ -265,6 +278,8 @@ static void long_stream_renorm_scenario_x(int withResets)
         if (d != BS || memcmp(out, cur, BS) != 0) { c_fail(&r, "block_does_not_decode_against_history"); break; }
         cur_clear();
     }
+    for (i = 0; i < 2 * xr_n; i++) free(xr_keep[i]);
+    free(xr_tb); free(xr_dict);
     LZ4_freeStream(fs); free(big[0]); free(big[1]); free(blk[0]); free(blk[1]); free(dst); free(out);
 }
 
@@ -393,7 +408,7 @@ static void contig_stream_history(int thorough)
  * (right after the dictionary; somewhere else; ending inside the dictionary, i.e. overwriting its beginning like a ring buffer that wraps), LZ4_saveDict
  * (any size, possibly overlapping), LZ4_loadDict / LZ4_loadDictSlow (sizes 0..> 64 KB), LZ4_resetStream_fast.  Every block is also decoded by the real
  * decoder against the declared history (everything since the last reset / load, the loaded dictionary included). ---- */
-static u64 n_xs_hist, n_xs_ops, n_xs_contig, n_xs_apart, n_xs_inside, n_xs_save, n_xs_load, n_xs_reset, n_xs_failed;
+static u64 n_xs_ops, n_xs_contig, n_xs_apart, n_xs_inside, n_xs_save, n_xs_load, n_xs_reset, n_xs_failed;
 static void xstream_history(int thorough)
 {
     enum { MAXO = 12 };
@@ -402,7 +417,7 @@ static void xstream_history(int thorough)
     static const char* const pre[] = {"2026-09-29T08:00:", "GET /index.html?id=", "user=bob action=", "WARN retry while ", "", "zzzzzzzzzzzzzzzzzzzzzz"};
     for (i = 0; i < A; i++) arena[i] = rndp(50) ? (u8)('a' + rndn(6)) : (u8)rnd();
     LZ4_resetStream_fast(st);
-    rec_begin(&r, 16); rec_int(&r, 0);
+    rec_begin(&r, 16); rec_int(&r, 0); rec_bytes(&r, NULL, 0); rec_int(&r, 0); rec_int(&r, 0); rec_bytes(&r, NULL, 0); rec_int(&r, 0);      /* starts from a fresh stream */
     for (k = 0; k < nops && !done && r.n + 8 < MAXARGS; k++) {
         const u8* dct = in->dictionary; size_t ds = in->dictSize; const u8* E = ds ? dct + ds : NULL; int kind = (int)rndn(100);
         int dictInArena = ds && dct >= arena && E <= arena + A;
@@ -500,7 +515,7 @@ int main(int argc, char** argv)
     if (!strcmp(mode, "c11") || !strcmp(mode, "c12") || !strcmp(mode, "c18")) for (i = 0; i < (thorough ? SH(8000) : 700); i++) xstream_history(thorough);
     harness_done();
     stat_u("calls", n_calls); stat_u("blocks_checked", n_blocks); stat_u("limited_output_failures", n_fail_ret0); stat_u("saveDict", n_saves); stat_u("loadDict", n_loads); stat_u("attach", n_attach);
-    stat_u("resets", n_resets); stat_u("fastReset_oneshots", n_oneshots); stat_u("continue_destSize", n_destsize); stat_u("ring_wraps", n_wraps); stat_u("streams_beyond_2GiB", n_renorm); stat_u("fastReset_histories", n_fr_hist); stat_u("contiguous_stream_sessions", n_cs_hist); stat_u("contiguous_stream_calls", n_cs_calls); stat_u("contiguous_stream_sessions_on_reused_stream", n_cs_reused); stat_u("contiguous_stream_sessions_starting_with_stale_table", n_cs_stale); stat_u("contiguous_stream_sessions_ended_by_failure", n_cs_failed); stat_u("fastReset_history_calls", n_fr_calls); stat_u("placed_stream_lives", n_xs_hist); stat_u("placed_stream_ops", n_xs_ops); stat_u("placed_stream_compress_contiguous", n_xs_contig); stat_u("placed_stream_compress_apart", n_xs_apart); stat_u("placed_stream_compress_overlapping_dictionary", n_xs_inside); stat_u("placed_stream_saveDict", n_xs_save); stat_u("placed_stream_loadDict", n_xs_load); stat_u("placed_stream_reset", n_xs_reset); stat_u("placed_stream_lives_ended_by_failure", n_xs_failed); stat_u("records", g_nrecords);
+    stat_u("resets", n_resets); stat_u("fastReset_oneshots", n_oneshots); stat_u("continue_destSize", n_destsize); stat_u("ring_wraps", n_wraps); stat_u("streams_beyond_2GiB", n_renorm); stat_u("fastReset_histories", n_fr_hist); stat_u("contiguous_stream_sessions", n_cs_hist); stat_u("contiguous_stream_calls", n_cs_calls); stat_u("contiguous_stream_sessions_on_reused_stream", n_cs_reused); stat_u("contiguous_stream_sessions_starting_with_stale_table", n_cs_stale); stat_u("contiguous_stream_sessions_ended_by_failure", n_cs_failed); stat_u("fastReset_history_calls", n_fr_calls); stat_u("placed_stream_lives", n_xs_hist); stat_u("placed_stream_lives_through_2GiB_rescale", n_xs_renorm); stat_u("placed_stream_ops", n_xs_ops); stat_u("placed_stream_compress_contiguous", n_xs_contig); stat_u("placed_stream_compress_apart", n_xs_apart); stat_u("placed_stream_compress_overlapping_dictionary", n_xs_inside); stat_u("placed_stream_saveDict", n_xs_save); stat_u("placed_stream_loadDict", n_xs_load); stat_u("placed_stream_reset", n_xs_reset); stat_u("placed_stream_lives_ended_by_failure", n_xs_failed); stat_u("records", g_nrecords);
     stat_u("cfails", (u64)g_cfails);
     free(dictbuf); free(g_hist); free(g_ring);
     return g_cfails ? 1 : 0;
